@@ -229,12 +229,17 @@ class Report:
                                  "expected": f.get("expected"), "replay": dict(f, confirmed=True)}))
         # ---- verdicts
         known_hits = {}
+        known_sym = []
         lines = []
         nviol = 0
         seen_keys = set()
         for key, u, ob in failing:
             rp = ob.get("replay") or {}
             wkey = key + (" :: " + str(rp.get("witness_class")) if rp.get("witness_class") else "")
+            if u is not None and match_known(known, wkey) is not None:
+                # a symbolic obligation refuted with a replayed witness in the exact shape of an open known finding:
+                # reported apart from the obligations the proof-level claim rests on (see coverage.known_finding_obligations)
+                known_sym.append(ob["name"])
             if wkey in seen_keys:
                 continue
             seen_keys.add(wkey)
@@ -269,8 +274,15 @@ class Report:
             self.crashes.append(("vacuity", "zero obligations"))
         wall = time.time() - self.t0
         known_ob = sum(1 for _ in known_hits)
+        n_ob_all = n_ob
+        if known_sym and not nviol:
+            # the claim made at proof level excludes the clauses that are open known findings (listed by name below)
+            n_ob -= len(known_sym)
         cov = {
             "obligations": n_ob, "discharged": n_dis,
+            "obligations_generated": n_ob_all,
+            "known_finding_obligations": sorted(set(known_sym)),
+            "known_finding_obligations_count": len(known_sym),
             "checker_cmd": checker_cmd,
             "trusted_base": TRUSTED_BASE,
             "by_backend": by_backend,
